@@ -14,6 +14,8 @@ def gen_regs(rnd, case):
     def pats():
         if rnd.random() < 0.4:
             return None
+        if rnd.random() < 0.12:
+            return []              # an empty filter: a set that names no function selects none (not "no filter")
         out = []
         for _ in range(rnd.randint(1, 2)):
             k = rnd.random()
